@@ -1162,42 +1162,115 @@ func c11NamespaceRule(c *Ctx, fn *ssa.Function) {
 		}
 	}
 
-	// classify edges
-	type edge struct{ from, to *ssa.BasicBlock }
-	exempt, nsEdge, scEdge := map[edge]bool{}, map[edge]bool{}, map[edge]bool{}
+	// classify edges. An edge is taken in the context of the edge through which its source block was
+	// entered (prev): when the branch condition is a boolean Phi of the source block (a guard that was
+	// materialised in a variable, `bad := a && b; if bad {…}`), the fact established by the branch is
+	// about the value that flowed into the Phi over prev — judged per incoming edge; a constant that
+	// contradicts the branch makes the combination infeasible.
+	type edge struct{ prev, from, to *ssa.BasicBlock }
+	exempt, nsEdge, scEdge, infeasible := map[edge]bool{}, map[edge]bool{}, map[edge]bool{}, map[edge]bool{}
 	var exemptNotes []string
 	var mappings []*ssa.Call
-	for _, b := range fn.Blocks {
-		for _, s := range b.Succs {
-			for _, f := range p.edgeFacts(b, s) {
-				e := edge{b, s}
-				if empty, ok := strEmptyFact(f, func(v ssa.Value) bool { return x.isNSOf(v, x.owner) }); ok && empty {
-					exempt[e] = true
-					exemptNotes = append(exemptNotes, "cluster-scoped owner: "+p.describeFact(f))
+	factsVia := func(prev, from, to *ssa.BasicBlock) (out []Fact, feasible bool) {
+		for _, f := range p.edgeFacts(from, to) {
+			ph, isPhi := f.Cond.(*ssa.Phi)
+			if !isPhi || ph.Block() != from || prev == nil {
+				out = append(out, f)
+				continue
+			}
+			for i, pr := range from.Preds {
+				if pr != prev || i >= len(ph.Edges) {
+					continue
 				}
-				if empty, ok := strEmptyFact(f, func(v ssa.Value) bool {
-					u, isU := stripConv(v).(*ssa.UnOp)
-					if !isU || u.Op != token.MUL {
-						return false
+				if bv, isConst := constBool(ph.Edges[i]); isConst {
+					if bv != f.Pol {
+						return nil, false
 					}
-					fa, isFA := u.X.(*ssa.FieldAddr)
-					return isFA && fieldName(fa.X.Type(), fa.Field) == "Class" && namedTypeString(fa.X.Type()) == pkgCoreV1+".ObjectSetTemplatePhase"
-				}); ok && !empty {
-					exempt[e] = true
-					exemptNotes = append(exemptNotes, "delegated phase: "+p.describeFact(f))
+					continue
 				}
-				if empty, ok := strEmptyFact(f, func(v ssa.Value) bool { return x.isNSOf(v, x.obj) }); ok && empty {
-					nsEdge[e] = true
+				out = append(out, p.mkFact(ph.Edges[i], f.Pol))
+			}
+		}
+		return out, true
+	}
+	for _, b := range fn.Blocks {
+		prevs := append([]*ssa.BasicBlock{}, b.Preds...)
+		if len(prevs) == 0 {
+			prevs = append(prevs, nil)
+		}
+		for _, s := range b.Succs {
+			for _, prev := range prevs {
+				e := edge{prev, b, s}
+				fs, feasible := factsVia(prev, b, s)
+				if !feasible {
+					infeasible[e] = true
+					continue
 				}
-				if eq, ok := x.nsEqual(f); ok && eq {
-					nsEdge[e] = true
-				}
-				if nsd, ok, m := x.scopeFact(f); ok && nsd {
-					scEdge[e] = true
-					mappings = append(mappings, m)
+				for _, f := range fs {
+					if empty, ok := strEmptyFact(f, func(v ssa.Value) bool { return x.isNSOf(v, x.owner) }); ok && empty {
+						exempt[e] = true
+						exemptNotes = append(exemptNotes, "cluster-scoped owner: "+p.describeFact(f))
+					}
+					if empty, ok := strEmptyFact(f, func(v ssa.Value) bool {
+						u, isU := stripConv(v).(*ssa.UnOp)
+						if !isU || u.Op != token.MUL {
+							return false
+						}
+						fa, isFA := u.X.(*ssa.FieldAddr)
+						return isFA && fieldName(fa.X.Type(), fa.Field) == "Class" && namedTypeString(fa.X.Type()) == pkgCoreV1+".ObjectSetTemplatePhase"
+					}); ok && !empty {
+						exempt[e] = true
+						exemptNotes = append(exemptNotes, "delegated phase: "+p.describeFact(f))
+					}
+					if empty, ok := strEmptyFact(f, func(v ssa.Value) bool { return x.isNSOf(v, x.obj) }); ok && empty {
+						nsEdge[e] = true
+					}
+					if eq, ok := x.nsEqual(f); ok && eq {
+						nsEdge[e] = true
+					}
+					if nsd, ok, m := x.scopeFact(f); ok && nsd {
+						scEdge[e] = true
+						mappings = append(mappings, m)
+					}
 				}
 			}
 		}
+	}
+	// reachPassing: blocks reachable from the entry over feasible, non-exempt edges outside `cut`, not
+	// continuing through violation-adding blocks; explored over (entered-through, block) states.
+	reachPassing := func(cut map[edge]bool) map[*ssa.BasicBlock]*ssa.BasicBlock {
+		parent := map[*ssa.BasicBlock]*ssa.BasicBlock{}
+		if len(fn.Blocks) == 0 {
+			return parent
+		}
+		type state struct{ prev, b *ssa.BasicBlock }
+		entry := fn.Blocks[0]
+		parent[entry] = entry
+		seen := map[state]bool{{nil, entry}: true}
+		work := []state{{nil, entry}}
+		for len(work) > 0 {
+			st := work[0]
+			work = work[1:]
+			if vBlock[st.b] {
+				continue
+			}
+			for _, s := range st.b.Succs {
+				e := edge{st.prev, st.b, s}
+				if infeasible[e] || exempt[e] || cut[e] {
+					continue
+				}
+				nx := state{st.b, s}
+				if seen[nx] {
+					continue
+				}
+				seen[nx] = true
+				if _, ok := parent[s]; !ok {
+					parent[s] = st.b
+				}
+				work = append(work, nx)
+			}
+		}
+		return parent
 	}
 
 	// target returns: may return (no violation, nil error)
@@ -1242,8 +1315,7 @@ func c11NamespaceRule(c *Ctx, fn *ssa.Function) {
 			o.Fail("the function never establishes %s on any branch", what)
 			return
 		}
-		reach := pfReachable(fn, func(from, to *ssa.BasicBlock) bool { return exempt[edge{from, to}] || cut[edge{from, to}] },
-			func(b *ssa.BasicBlock) bool { return vBlock[b] })
+		reach := reachPassing(cut)
 		var bad []string
 		for _, t := range targets {
 			b := t.rc.Ret.Block()
@@ -1298,27 +1370,34 @@ func c11r5(c *Ctx) {
 	for _, fn := range fns {
 		checks := pfCheckCalls(fn, pfObjCheckSig)
 		type site struct {
-			name string
-			in   ssa.Instruction
-			obj  ssa.Value // written / read object
-			key  ssa.Value // for reads
+			name  string
+			in    ssa.Instruction
+			obj   ssa.Value // written / read object
+			key   ssa.Value // for reads
+			chain []Call    // helper calls leading to the site (inlined view), outermost first
 		}
 		var sites []site
-		for _, cc := range callsIn(fn) {
+		// inlined view: reads and writes that were extracted into unexported helpers of the teardown
+		// function are sites of the teardown function, judged with the facts imported from the call sites
+		for _, xc := range p.callsInX(fn) {
+			cc := xc.Call
 			if ws, ok := classifyWriter(cc); ok && pfNonDryWriter(ws) {
-				sites = append(sites, site{ws.Verb, cc.Instr, ws.Obj, nil})
+				if len(xc.Chain) > 0 && ws.Verb == "Delete" && len(viaHelper[fn]) > 0 {
+					continue // represented by its helper call below
+				}
+				sites = append(sites, site{ws.Verb, cc.Instr, ws.Obj, nil, xc.Chain})
 			} else if isReaderGet(cc.Common) {
 				a := callArgs(cc.Common)
-				sites = append(sites, site{"Get", cc.Instr, a[2], a[1]})
+				sites = append(sites, site{"Get", cc.Instr, a[2], a[1], xc.Chain})
 			}
 		}
 		for _, dc := range viaHelper[fn] {
 			// the delete was extracted into a helper: its call site is the delete site
-			sites = append(sites, site{"Delete", dc.Site, dc.Obj, nil})
+			sites = append(sites, site{"Delete", dc.Site, dc.Obj, nil, nil})
 		}
 		for _, s := range sites {
 			o := c.Ob(fn, "teardown-"+s.name, s.in, c.rule.Statement)
-			fs := p.FactsAt(s.in.Block())
+			fs := p.FactsAtX(s.in.Block())
 			var chk *ssa.Call
 			for _, k := range checks {
 				if p.pfSuccess(fs, k) {
@@ -1355,13 +1434,13 @@ func c11r5(c *Ctx) {
 			default:
 				// written object must be the out-parameter of an error-free read keyed by the checked object
 				okRead := false
-				for _, g := range callsIn(fn) {
+				for _, g := range p.callsInX(fn) {
 					gc, isCall := g.Instr.(*ssa.Call)
 					if !isCall || !isReaderGet(g.Common) {
 						continue
 					}
 					ga := callArgs(g.Common)
-					if p.sameValue(ga[2], s.obj) && keyOf(ga[1]) && p.errOfCallIsNil(fs, gc) {
+					if p.sameValue(ga[2], s.obj) && keyOf(ga[1]) && p.errNilX(fs, gc, g.Chain) {
 						okRead = true
 					}
 				}
@@ -1369,10 +1448,29 @@ func c11r5(c *Ctx) {
 					problems = append(problems, "the written object "+p.describe(s.obj)+" is neither the checked object nor read by the key of the checked object")
 				}
 			}
-			for _, in := range between(chk, s.in) {
+			for _, in := range between(chk, rootSite(s.in, s.chain)) {
 				if bad, what := p.pfIdentityMutation(in, x, nil); bad {
 					problems = append(problems, "the checked object is re-addressed after the check: "+what)
 				}
+			}
+			// ... and inside the helpers on the way to the site
+			at := s.in
+			for i := len(s.chain) - 1; i >= 0; i-- {
+				reach := canReach(at.Block())
+				for _, b := range at.Parent().Blocks {
+					if !reach[b] {
+						continue
+					}
+					for _, in := range b.Instrs {
+						if in == at || (b == at.Block() && instrIndex(in) >= instrIndex(at)) {
+							continue
+						}
+						if bad, what := p.pfIdentityMutation(in, x, nil); bad {
+							problems = append(problems, "the checked object is re-addressed after the check: "+what)
+						}
+					}
+				}
+				at = s.chain[i].Instr
 			}
 			if len(problems) == 0 {
 				o.OK("preflight at " + p.IPos(chk))
